@@ -424,6 +424,7 @@ def impl_parse(case, stage="parse"):
             else:
                 w = doc.settings.warning_stream.getvalue()
     impl_parse.last_dynamic = rec.records
+    impl_parse.last_violations = list(rec.violations)
     return doc, w, cap.tokens
 
 
@@ -517,15 +518,20 @@ def correspond(pid, cases, stage="parse", check_tokens=False):
             res[i] = {"status": "impl-exception", "where": "render", "exc": type(e).__name__, "msg": str(e)[:200]}
             continue
         items.append((case, root, len(env.get("duplicate_refs", [])), impl_parse.last_dynamic))
-        impl.append((doc, w, seen, toks, root))
+        impl.append((doc, w, seen, toks, root, impl_parse.last_violations))
         idx.append(i)
     cmd = "render" if stage == "parse" else "xform"
     replies, n_or = model_render(pid, cmd, items) if items else ([], 0)
     tables = getattr(model_render, "last_tables", [])
     for j, i in enumerate(idx):
         case = cases[i]
-        doc, w, seen, toks, root = impl[j]
+        doc, w, seen, toks, root, viol = impl[j]
         ot = {}
+        if viol:
+            res[i] = {"status": "disagree", "what": "O_directive/O_role", "at": "render_directive / render_myst_role",
+                      "impl": "the current node did not receive the run_directive / role result exactly once at its end: %r" % (viol[:2],),
+                      "model": "self.current_node += nodes", "oracle_tests": ot}
+            continue
         if check_tokens and seen is not None:
             # O_tree: the renderer received the token stream of the RendererHTML parser
             same = [_strip_map(t) for t in seen] == [_strip_map(t.as_dict()) for t in toks]
